@@ -41,6 +41,11 @@ def cases(draw, cls, max_n=80, max_p=20):
     n = draw(st.integers(0, max_n))
     rows = draw(gs.streams(n, n, with_ts=False))
     case = {"cls": cls, "kw": kw, "stream": rows, "input": "close", "start": 0}
+    if cls != "HMA" and draw(st.integers(0, 2)) == 0:
+        # the indicator is first built and calculated with these parameters, then re-tuned to kw and recalculated
+        case["retune_from"] = {"period": draw(st.integers(2, max_p))}
+        if cls == "EMA":
+            case["retune_from"]["smoothing"] = draw(st.sampled_from((1.0, 2.0, 3.0)))
     if cls == "VWMA":
         return case
     kind = draw(st.sampled_from(("price", "volume", "synthetic", "synthetic", "synthetic", "synthetic", "upstream", "upstream")))
@@ -198,6 +203,26 @@ def run_case(case) -> Result:
             elif nm.series(ind3)[k:] != got[start:]:
                 viol.append(Violation("depends-on-position-of-input", "reading", f"{k} input-less candles prepended change the readings"))
             labels.append("prepended")
+    # (6) parameters changed midway: Hexital.recalculate is documented as "ideal for changing an indicator
+    #     parameters midway" - after re-tuning and recalculate() the readings are those of the new parameters
+    if not viol and case.get("retune_from") and cls != "HMA":
+        labels.append("retuned")
+        cfg0 = {"cls": cls, "kw": dict(cfg["kw"], **case["retune_from"])}
+        ind0, v0 = nm.run_batch(cfg0, rows, prep)
+        if v0 is None:
+            try:
+                for k_, val in kw.items():
+                    setattr(ind0, k_, val)
+                if cls == "EMA" and "smoothing" not in kw:
+                    ind0.smoothing = 2.0
+                ind0.recalculate()
+                got0 = nm.series(ind0)
+            except Exception as exc:
+                viol.append(raises(exc))
+            else:
+                if got0 != got:
+                    k = next((i for i, (a_, b_) in enumerate(zip(got0, got)) if a_ != b_), 0)
+                    viol.append(Violation("retuned-readings-differ-from-definition", "recalculate", f"built with {case['retune_from']}, re-tuned to {kw} and recalculated: index {k} reads {got0[k]!r}, a fresh indicator {got[k]!r}"))
     for v in viol:
         v.subject = cls
     n_inputs = len([t for t in xs if t is not None])
